@@ -1,7 +1,7 @@
 (* C05 — table obligations: facts about the CURRENT source as extracted into Tables.v on this run, each
    discharged by closed computation.  When the source changes shape, exactly the lemma naming that shape
    stops checking (and the generic theorems in Proofs.v, which take these facts as hypotheses, are untouched). *)
-From G05 Require Import Routing Spec.
+From G05 Require Import Routing Spec Proofs.
 
 Definition m_DIRECT := b "DIRECT".
 Definition m_PROXY := b "PROXY".
@@ -34,7 +34,9 @@ Lemma ob_url_shape : url_nil_mode = m_DIRECT /\ url_remap = [(m_PROXY, m_HTTP)] 
 Proof. vm_compute. repeat split; reflexivity. Qed.
 
 (* http_proxy.go *)
-Lemma ob_select_order : select_order = [b "func"; b "upstream"; b "pac"; b "default"].
+(* every kind of upstream has its arm in configureProxy's selection switch (the order of the arms only matters
+   when several kinds are configured at once: Proofs.sel_ok) *)
+Lemma ob_select_arms_present : select_arms_present = true.
 Proof. vm_compute. reflexivity. Qed.
 Lemma ob_wrappers : wrappers = [b "direct-domains"; b "direct-localhost"].
 Proof. vm_compute. reflexivity. Qed.
@@ -45,8 +47,8 @@ Proof. vm_compute. reflexivity. Qed.
 (* the direct rules judge the host that is contacted: direct-domains also asks about the IDNA-mapped name,
    isLocalhost maps the name itself *)
 Lemma ob_direct_rules_judge_contacted_host :
-  direct_domains_maps_idna = true /\ localhost_maps_idna_inside = true.
-Proof. vm_compute. split; reflexivity. Qed.
+  (direct_domains_maps_idna = true /\ direct_domains_strips_dot = true) /\ localhost_maps_idna_inside = true.
+Proof. vm_compute. repeat split; reflexivity. Qed.
 
 (* internal/martian, dialvia *)
 Lemma ob_connect_switch :
